@@ -14,6 +14,7 @@ import (
 	"strconv"
 	"strings"
 	"time"
+	_ "time/tzdata"
 
 	"github.com/samber/ro"
 	robytes "github.com/samber/ro/plugins/bytes"
@@ -871,6 +872,21 @@ func timeTemplateCases() []plugCase {
 	base := time.Date(2024, 2, 29, 23, 59, 59, 999, time.UTC)
 	ny := time.FixedZone("X", -5*3600)
 	times := []time.Time{{}, base, base.In(ny), time.Unix(0, 0).UTC(), time.Date(1999, 12, 31, 0, 0, 0, 0, ny)}
+	// a grid over the days around every offset change of 2024 in zones with daylight saving (northern,
+	// southern, a 30-minute shift), one without, and a fixed offset: every 30 minutes plus one odd instant
+	for _, zn := range []string{"Europe/Paris", "America/New_York", "Australia/Sydney", "Australia/Lord_Howe", "Asia/Tokyo", "America/Sao_Paulo"} {
+		loc, err := time.LoadLocation(zn) // time/tzdata is linked in: no dependency on the host
+		if err != nil {
+			panic(err)
+		}
+		for _, day := range [][3]int{{2024, 3, 9}, {2024, 3, 30}, {2024, 4, 6}, {2024, 10, 5}, {2024, 10, 26}, {2024, 11, 2}, {2024, 12, 31}, {2024, 2, 28}} {
+			start := time.Date(day[0], time.Month(day[1]), day[2], 0, 0, 0, 0, time.UTC)
+			for k := 0; k < 3*48; k++ {
+				times = append(times, start.Add(time.Duration(k)*30*time.Minute).In(loc))
+			}
+			times = append(times, start.Add(26*time.Hour+17*time.Minute+3*time.Second+5).In(loc))
+		}
+	}
 	eqT := func(a, b time.Time) bool { return a.Equal(b) && a.Location().String() == b.Location().String() }
 	cases = append(cases,
 		plugCase{"time", "Add", func() []fw.Violation {
